@@ -33,41 +33,41 @@ func init() {
 
 // mapGuards: struct.field → mutex fields that guard it (any of). Confirmed by reading.
 var mapGuards = map[string][]string{
-	"events.eventsStore.idPubKey":              {"RWMutex"},
-	"events.eventsStore.pubKeyID":              {"RWMutex"},
-	"events.eventsStore.idAddress":             {"RWMutex"},
-	"events.eventsStore.addressID":             {"RWMutex"},
-	"accounts.Accounts.list":                   {"lock"},
-	"accounts.Accounts.dirty":                  {"lock"},
-	"accounts.Model.balances":                  {"lock"},
-	"accounts.Model.dirtyBalances":             {"lock"},
-	"candidates.Candidates.list":               {"lock"},
-	"candidates.Candidates.blockList":          {"lock"},
-	"candidates.Candidates.pubKeyIDs":          {"lock"},
-	"candidates.Candidates.deletedCandidates":  {"muDeletedCandidates"},
-	"checker.Checker.delta":                    {"lock"},
-	"checker.Checker.volumeDelta":              {"lock"},
-	"checks.Checks.usedChecks":                 {"lock"},
-	"coins.Coins.list":                         {"lock"},
-	"coins.Coins.dirty":                        {"lock"},
-	"coins.Coins.symbolsList":                  {"lock"},
-	"coins.Coins.symbolsInfoList":              {"lock"},
-	"commission.Commission.list":               {"lock"},
-	"commission.Commission.dirty":              {"lock"},
-	"frozenfunds.FrozenFunds.list":             {"lock"},
-	"frozenfunds.FrozenFunds.dirty":            {"lock"},
-	"halts.HaltBlocks.list":                    {"lock"},
-	"halts.HaltBlocks.dirty":                   {"lock"},
-	"swap.Swap.pairs":                          {"muPairs"},
-	"swap.Swap.dirties":                        {"muPairs"},
-	"swap.Swap.dirtiesOrders":                  {"muPairs"},
-	"swap.SwapV2.pairs":                        {"muPairs"},
-	"swap.SwapV2.dirties":                      {"muPairs"},
-	"swap.SwapV2.dirtiesOrders":                {"muPairs"},
-	"update.Update.list":                       {"lock"},
-	"update.Update.dirty":                      {"lock"},
-	"waitlist.WaitList.list":                   {"lock"},
-	"waitlist.WaitList.dirty":                  {"lock"},
+	"events.eventsStore.idPubKey":             {"RWMutex"},
+	"events.eventsStore.pubKeyID":             {"RWMutex"},
+	"events.eventsStore.idAddress":            {"RWMutex"},
+	"events.eventsStore.addressID":            {"RWMutex"},
+	"accounts.Accounts.list":                  {"lock"},
+	"accounts.Accounts.dirty":                 {"lock"},
+	"accounts.Model.balances":                 {"lock"},
+	"accounts.Model.dirtyBalances":            {"lock"},
+	"candidates.Candidates.list":              {"lock"},
+	"candidates.Candidates.blockList":         {"lock"},
+	"candidates.Candidates.pubKeyIDs":         {"lock"},
+	"candidates.Candidates.deletedCandidates": {"muDeletedCandidates"},
+	"checker.Checker.delta":                   {"lock"},
+	"checker.Checker.volumeDelta":             {"lock"},
+	"checks.Checks.usedChecks":                {"lock"},
+	"coins.Coins.list":                        {"lock"},
+	"coins.Coins.dirty":                       {"lock"},
+	"coins.Coins.symbolsList":                 {"lock"},
+	"coins.Coins.symbolsInfoList":             {"lock"},
+	"commission.Commission.list":              {"lock"},
+	"commission.Commission.dirty":             {"lock"},
+	"frozenfunds.FrozenFunds.list":            {"lock"},
+	"frozenfunds.FrozenFunds.dirty":           {"lock"},
+	"halts.HaltBlocks.list":                   {"lock"},
+	"halts.HaltBlocks.dirty":                  {"lock"},
+	"swap.Swap.pairs":                         {"muPairs"},
+	"swap.Swap.dirties":                       {"muPairs"},
+	"swap.Swap.dirtiesOrders":                 {"muPairs"},
+	"swap.SwapV2.pairs":                       {"muPairs"},
+	"swap.SwapV2.dirties":                     {"muPairs"},
+	"swap.SwapV2.dirtiesOrders":               {"muPairs"},
+	"update.Update.list":                      {"lock"},
+	"update.Update.dirty":                     {"lock"},
+	"waitlist.WaitList.list":                  {"lock"},
+	"waitlist.WaitList.dirty":                 {"lock"},
 }
 
 // mapGuardExempt: struct.field → reason the field needs no guard.
